@@ -585,20 +585,28 @@ import os as _os
 PROOF_BUDGET_S = float(_os.environ.get("SPVERIF_PROOF_BUDGET", "4") or 4)
 
 
+# work units (constraint rows given to the elimination procedure) that correspond to one second of search on the
+# machine the budgets were chosen on; the budget itself is counted in these units so that verdicts do not depend on load
+OPS_PER_BUDGET_SECOND = int(_os.environ.get("SPVERIF_OPS_PER_SECOND", "60000") or 60000)
+
+
 def budgeted_prove(facts, goal, max_cases=None, budget=None):
-    """prove() under a wall-clock budget; -> ('budget', reason) when exceeded"""
-    import time as _t
+    """prove() under a deterministic work budget; -> ('budget', reason) when exceeded"""
     from . import linear as _lin
     from .linear import ProofBudgetExceeded
-    old = _lin.DEADLINE[0]
-    _lin.DEADLINE[0] = _t.time() + (budget or PROOF_BUDGET_S)
+    old = _lin.OPS_LEFT[0]
+    units = int((budget or PROOF_BUDGET_S) * OPS_PER_BUDGET_SECOND)
+    _lin.OPS_LEFT[0] = units if old is None else min(old, units)
+    start = _lin.OPS_DONE[0]
     try:
         return prove(facts, goal, max_cases=max_cases)
     except ProofBudgetExceeded:
         _IN_SIMPLIFY[0] = 0
-        return "budget", f"proof search exceeded {PROOF_BUDGET_S:.0f} s"
+        return "budget", f"proof search exceeded its budget of {units} work units"
     finally:
-        _lin.DEADLINE[0] = old
+        if old is not None:
+            old -= _lin.OPS_DONE[0] - start
+        _lin.OPS_LEFT[0] = old
 
 
 def check_xbuf(ck, it, func, rule="X-BUF", roots=None, skip_funcs=(), strict_slices=False, only_funcs=None):
